@@ -844,6 +844,23 @@ theorem core_type_defs_spec (g : Defs) :
   intro i n h
   simp [coreTypeDefs, List.getElem?_map, h]
 
+open Hs.NsA in
+/-- `has_subtype`: some def is a direct subtype -/
+theorem has_subtype_spec (ns : Ns) (s : Name) :
+    hasSubtype ns s = true ↔ ∃ d, d ∈ subtypesOf ns s := by
+  unfold hasSubtype
+  cases h : subtypesOf ns s with
+  | nil => simp
+  | cons d r => simp
+
+open Hs.NsA in
+/-- `all_matching_names`: exactly the given names that have a def, in the order given -/
+theorem all_matching_names_spec (g : Defs) (names : List Name) :
+    (∀ n, n ∈ allMatchingNames g names ↔ n ∈ names ∧ defined g n = true) ∧
+    (allMatchingNames g names).Sublist names := by
+  refine ⟨fun n => by simp [allMatchingNames, List.mem_filter], ?_⟩
+  exact List.filter_sublist
+
 /-! The fuel bound is attained: below the undefined symbol `nowhere` hang both defs of this grid, the subtype
 traversal pops `1 + 2` vectors; one unit of fuel less and the model reports `diverge`. -/
 def chainRows : List Row :=
